@@ -254,7 +254,7 @@ func runSchedule(t *testing.T, n *Net, sc []move, bi int, rng *rand.Rand, out *v
 				naccept++
 			}
 			out.Emit(rc)
-			if got == "ok" || got == "error" {
+			if got == "ok" || got == "error" || got == "panic" {
 				cur = nil
 			}
 		}
@@ -293,6 +293,8 @@ func awaitReaction(n *Net) (string, reaction) {
 				return "skip", r
 			case "failed to measure clock offset":
 				return "error", r
+			case "client panic":
+				return "panic", r
 			}
 		case <-deadline:
 			return "ignored", r
@@ -319,31 +321,37 @@ func fillAccept(rc *rec, n *Net, cur *attempt, atts map[int]*attempt, r reaction
 	rtd := r.eval.Attrs["round trip delay"].Duration()
 	rc.Il = r.eval.Attrs["interleaved"].Bool()
 	data := r.received.Attrs["data"]
-	rOrg, rRx, rTx := groupT64(data, "OriginTime"), groupT64(data, "ReceiveTime"), groupT64(data, "TransmitTime")
-	_ = rOrg
-	var t0, t1, t2, t3 ntp.Time64
-	if rc.Il {
-		t0, t1, t2, t3 = cur.req.TransmitTime, cur.req.OriginTime, rTx, cur.req.ReceiveTime
-	} else {
-		t0, t1, t2, t3 = pv.CTxTime, rRx, rTx, pv.CRxTime
-	}
+	rRx, rTx := groupT64(data, "ReceiveTime"), groupT64(data, "TransmitTime")
 	ref := time.Now()
-	tt0, tt3 := ntp.TimeFromTime64(t0, ref), ntp.TimeFromTime64(t3, ref)
-	// client side: which attempt do t0 and t3 belong to
-	for _, a := range atts {
-		if !a.acc {
-			continue
+	var t1, t2 ntp.Time64
+	var tt0, tt3 time.Time
+	if rc.Il {
+		// all four timestamps are on the wire: three in the request, one in the response
+		t0, t3 := cur.req.TransmitTime, cur.req.ReceiveTime
+		t1, t2 = cur.req.OriginTime, rTx
+		tt0, tt3 = ntp.TimeFromTime64(t0, ref), ntp.TimeFromTime64(t3, ref)
+		// client side: which attempt do t0 and t3 belong to
+		for _, a := range atts {
+			if !a.acc || a == cur {
+				continue
+			}
+			if a.accCTx == t0 {
+				rc.T0ex = a.ex
+				d := a.arr.At.Sub(tt0)
+				rc.Win0 = d >= -50*time.Microsecond && d <= tolWin
+			}
+			if a.accCRx == t3 {
+				rc.T3ex = a.ex
+				d := tt3.Sub(a.delAt)
+				rc.Win3 = d >= -50*time.Microsecond && d <= tolWin
+			}
 		}
-		if a.accCTx == t0 {
-			rc.T0ex = a.ex
-			d := a.arr.At.Sub(tt0)
-			rc.Win0 = d >= -50*time.Microsecond && d <= tolWin
-		}
-		if a.accCRx == t3 {
-			rc.T3ex = a.ex
-			d := tt3.Sub(a.delAt)
-			rc.Win3 = d >= -50*time.Microsecond && d <= tolWin
-		}
+	} else {
+		// t1, t2 are the accepted datagram's own fields; the client's t0/t3 are not
+		// on the wire: they are located by the harness's kernel timestamps of the
+		// request's arrival and of the response's delivery (windows of tolWin)
+		t1, t2 = rRx, rTx
+		tt0, tt3 = cur.arr.At, delAt
 	}
 	// server side
 	if h := findH(n, func(h *Handling) bool { return h.Rxt64 == t1 }); h != nil {
@@ -353,7 +361,16 @@ func fillAccept(rc *rec, n *Net, cur *attempt, atts map[int]*attempt, r reaction
 		st2 := ntp.TimeFromTime64(t2, ref.Add(h.Theta))
 		reco := ntp.ClockOffset(tt0, st1, st2, tt3)
 		d := off - reco
-		rc.Reco = d >= -3 && d <= 3
+		if rc.Il {
+			rc.Reco = d >= -3 && d <= 3
+		} else {
+			// t0 in [arrival - tolWin, arrival], t3 in [delivery, delivery + tolWin]
+			rc.Reco = d >= -tolWin && d <= tolWin
+			rtdTrue := ntp.RoundTripDelay(tt0, st1, st2, tt3)
+			x := rtd - rtdTrue
+			in := x >= -100*time.Microsecond && x <= 2*tolWin
+			rc.T0ex, rc.T3ex, rc.Win0, rc.Win3 = cur.ex, cur.ex, in, in
+		}
 		rc.Err = clamp(off - h.Theta)
 	} else {
 		rc.Err = clampNs
